@@ -238,7 +238,11 @@ def coefficients_converted(prog: Program, rep, RID: str, classes: List[str]) -> 
     n = 0
     DATA = ("edge_error_scaling", "length_attr")
 
+    CONTAINERS = ("self.solution_weights_superset", "self.edge_upper_bounds", "self.subset_weights")      # the caller's numbers, item by item
+
     def is_data(e: ast.AST) -> bool:
+        if isinstance(e, ast.Subscript) and norm(e.value) in CONTAINERS:
+            return True
         return isinstance(e, ast.Call) and isinstance(e.func, ast.Attribute) and e.func.attr == "get" and any(d in norm(e) for d in DATA)
 
     def is_var(e: ast.AST) -> bool:
@@ -564,3 +568,32 @@ def solver_members_exist(prog: Program, rep, RID: str, classes=None) -> int:
     if n_sites == 0:
         raise AnalysisError("no read through self.solver found")
     return n_sites
+
+
+def k_as_python_int_in_rows(prog: Program, rep, RID: str, classes) -> int:
+    """k is accepted as any numbers.Integral (np.int64(2) is a valid k).  Where the caller's k - self.k before it is replaced, self.original_k - is handed to the
+    solver as the constant side of a row, it goes through int(): highspy takes Python numbers only (AttributeError: 'numpy.int64' object has no attribute 'index')."""
+    n = 0
+    for cname in classes:
+        for mname in sorted(prog.cls(cname).methods):
+            f = prog.own_method(cname, mname)
+            for c in calls_in(f.node):
+                if not (isinstance(c.func, ast.Attribute) and c.func.attr == "add_constraint" and c.args and isinstance(c.args[0], ast.Compare) and len(c.args[0].ops) == 1):
+                    continue
+                e = c.args[0]
+                for side in (e.left, e.comparators[0]):
+                    bare = isinstance(side, ast.Attribute) and norm(side) in ("self.original_k", "self.k")
+                    conv = isinstance(side, ast.Call) and dotted(side.func) in ("int", "float") and len(side.args) == 1 and norm(side.args[0]) in ("self.original_k", "self.k")
+                    if not (bare or conv):
+                        continue
+                    n += 1
+                    key = f"{cname}.{mname}:k-as-python-int"
+                    if conv:
+                        rep.ok(RID, key, f"`{norm(side)}`", f.loc(c))
+                    else:
+                        rep.violation(RID, key, f"the row `{norm(e)[:80]}` hands the caller's k (`{norm(side)}`) to the solver as it came: any numbers.Integral is accepted as k, and with "
+                                      "k=np.int64(2) (and a solution_weights_superset) the constructor raises AttributeError(\"'numpy.int64' object has no attribute 'index'\") "
+                                      "although k=2 is solved", f.loc(c))
+    if n == 0:
+        raise AnalysisError(f"no row with the caller's k as constant side found in {classes}")
+    return n
